@@ -321,7 +321,7 @@ func TestC19(t *testing.T) {
 				prios := rapid.Permutation([][]int{{1, 2, 3}, {1, 2, 3}, {1, 40000, 65535}, {2, 32768, 32770}, {1, 32769, 3}}[rapid.IntRange(0, 4).Draw(t, "prio_set")]).Draw(t, "prios")
 				for k := 0; k < nrec; k++ {
 					h := dns.HTTPS{Priority: uint16(prios[k])}
-					h.ALPN = [][]string{nil, {"h2"}, {"h3"}, {"h3", "h2"}, {"http/1.1"}, {"other"}, {"h2", "http/1.1"}, {"h3", "other"}}[rapid.IntRange(0, 7).Draw(t, "alpn")]
+					h.ALPN = [][]string{nil, {"h2"}, {"h3"}, {"h3", "h2"}, {"http/1.1"}, {"other"}, {"h2", "http/1.1"}, {"h3", "other"}, {"h3-29", "h2"}, {"h3-29"}, {"h2c", "h3x"}, {"H3", "h2"}}[rapid.IntRange(0, 11).Draw(t, "alpn")]
 					h.NoDefaultALPN = len(h.ALPN) > 0 && rapid.IntRange(0, 2).Draw(t, "nda") == 0
 					if rapid.IntRange(0, 3).Draw(t, "pport") == 0 {
 						h.Port = uint16(rapid.SampledFrom([]int{7443, 6443}).Draw(t, "pportv"))
